@@ -134,6 +134,14 @@ pub fn run(args: &Args) -> Report {
             "ASAP2_VERSION 1 71 /begin PROJECT p \"\" /begin MODULE m \"\" /begin A2ML block \"IF_DATA\" enum { \"a\" = 1, \"b\" }; /end A2ML /begin IF_DATA a /end IF_DATA /begin IF_DATA c /end IF_DATA /end MODULE /end PROJECT",
             "ASAP2_VERSION 1 71 /begin PROJECT p \"\" /begin MODULE m \"\" /begin A2ML struct s { int; }; block \"IF_DATA\" struct s; /end A2ML /begin IF_DATA 99999999999 /end IF_DATA /end MODULE /end PROJECT",
             "/begin A2ML", "/begin A2ML \"", "/begin A2ML /* ", "/begin A2ML // x",
+            // comments inside IF_DATA content (interpreted and uninterpreted), zero-width array elements with a huge
+            // dimension, float literals beyond the range of the field
+            "ASAP2_VERSION 1 71 /begin PROJECT p \"\" /begin MODULE m \"\" /begin IF_DATA X 1 /begin A 2 /end A /* c */ /begin B 3 /end B /* d */ /end IF_DATA /end MODULE /end PROJECT",
+            "ASAP2_VERSION 1 71 /begin PROJECT p \"\" /begin MODULE m \"\" /begin A2ML block \"IF_DATA\" taggedunion { \"X\" struct { uint; char[10]; }; }; /end A2ML /begin IF_DATA /* a */ X /* b */ 1 \"a\" /* c */ /end IF_DATA /end MODULE /end PROJECT",
+            "ASAP2_VERSION 1 71 /begin PROJECT p \"\" /begin MODULE m \"\" /begin A2ML block \"IF_DATA\" taggedunion { \"Y\" taggedunion { \"Z\" uint; }[2147483647]; }; /end A2ML /begin IF_DATA Y /end IF_DATA /begin IF_DATA Y Z 1 /end IF_DATA /end MODULE /end PROJECT",
+            "ASAP2_VERSION 1 71 /begin PROJECT p \"\" /begin MODULE m \"\" /begin A2ML block \"IF_DATA\" struct { taggedstruct { }[2147483647]; (struct { })*; uint; }; /end A2ML /begin IF_DATA 1 /end IF_DATA /end MODULE /end PROJECT",
+            "ASAP2_VERSION 1 71 /begin PROJECT p \"\" /begin MODULE m \"\" /begin A2ML block \"IF_DATA\" taggedunion { \"F\" float; \"D\" double; }; /end A2ML /begin IF_DATA F 1e300 /end IF_DATA /begin IF_DATA D 1e999 /end IF_DATA /begin IF_DATA Q 1e999 -1e999 /end IF_DATA /end MODULE /end PROJECT",
+            "ASAP2_VERSION 1 71 /begin PROJECT p \"\" /begin MODULE m \"\" /begin MEASUREMENT x \"\" UBYTE NO_COMPU_METHOD 0 0 -1e999 1e999 /end MEASUREMENT /end MODULE /end PROJECT",
         ] {
             inputs.push((s.to_string(), "a2ml-corner"));
         }
@@ -173,9 +181,13 @@ pub fn run(args: &Args) -> Report {
             }
         }
         // element-level tie on a sample (spec = none, load_from_string)
-        if i % 5 == 0 && !text.contains("A2ML") && !text.contains("IF_DATA") {
-            if let Some((req, ans)) = tie_case(text, i % 2 == 0) {
-                rep.tie(req, ans);
+        // (documents with A2ML / IF_DATA included since the special parsers are modelled; corner cases in both modes;
+        //  very long inputs are left to the lexer tie)
+        if (i % 5 == 0 || family.ends_with("corner") || *family == "a2ml-multibyte") && text.len() < 40000 {
+            for strict in if family.ends_with("corner") { vec![false, true] } else { vec![i % 2 == 0] } {
+                if let Some((req, ans)) = tie_case(text, strict) {
+                    rep.tie(req, ans);
+                }
             }
         }
         if i % 1499 == 0 {
